@@ -48,9 +48,10 @@ def run(tier, seed):
     run_contracts(rep, [u_contract(), symbol_body_contract()])
     over_16_live(rep)
     replay_known(rep, "C04")
-    run_bounded(rep, "C04", [("pressure", {"depth": 4, "max_stmts": 8, "max_funcs": 3}, "calls", 500 if q else 12000),
-                             ("calls", {"calls_focus": True, "max_funcs": 3}, "calls", 700 if q else 12000),
-                             ("general", {}, "default", 900 if q else 20000),
+    run_bounded(rep, "C04", [("pressure", {"depth": 4, "max_stmts": 8, "max_funcs": 3}, "calls", 300 if q else 12000),
+                             ("calls", {"calls_focus": True, "max_funcs": 3}, "calls", 400 if q else 12000),
+                             ("general", {}, "default", 400 if q else 20000),
+                             ("carried", {"carried": True, "calls_focus": True, "max_funcs": 1}, "calls", 500 if q else 10000),
                              ("modules", {"modules": True, "collide": False}, "modules", 300 if q else 6000),
                              ("modules-state", {"modules": True, "state_only": True}, "modules", 150 if q else 3000)],
                 budget_s=75 if q else 1500, seed=seed, want=["C04", "C01", "C02"])
